@@ -15,6 +15,7 @@ import Driver.InlineLoop
 import Driver.Reader
 import Driver.CMSpec
 import Driver.Blocks
+import Driver.Inlines
 namespace Driver
 
 def handle (line : String) : String :=
@@ -37,6 +38,7 @@ def handle (line : String) : String :=
   | "reader" :: rest => handleReader rest
   | "cmspec" :: rest => handleCMSpec rest
   | "blocks" :: rest => handleBlocks rest
+  | "inlines" :: rest => handleInlines rest
   | _ => bad
 
 partial def loop (hin hout : IO.FS.Stream) : IO Unit := do
